@@ -6,7 +6,7 @@ ISO Table 3 (`C05_tables`), alphanumeric values = ISO Table 5 (`C09_tables`).
 Symbolic: `Proofs/CompactSound.lean` — the byte-level `push_bits` / `push_u8` refine "append the
 k low bits, most significant first" under the invariant "bits beyond `len` are zero".
 -/
-import FastQr.Finite.Tables
+import FastQr.Finite.TablesMisc
 import FastQr.Proofs.Lift
 import FastQr.Props.C05
 import FastQr.Model.Encode
